@@ -937,6 +937,40 @@ def rule_group_tables(ctx):
                   "for TLS 1.3 only validate, and every server then refuses the ClientHello" % (name, gn[name]), floc)
 
 
+def rule_curve_tables(ctx):
+    """CURVE-TABLES: every elliptic curve name the settings admit (CURVE_NAMES / ALL_CURVE_NAMES, taken
+    from the source whatever the optional dependencies) that the key exchange resolves through
+    utils.ecc.getCurveByName is a key of that function's curve map - a name that validates but is
+    missing from the map makes the handshake die with ValueError once that curve is selected."""
+    R = "C19.CURVE-TABLES"
+    hmod = ctx.index.module("handshakesettings")
+    names = set()
+    for n in ast.walk(hmod.tree):
+        if isinstance(n, (ast.Assign, ast.AugAssign)):
+            tg = n.targets if isinstance(n, ast.Assign) else [n.target]
+            if any(isinstance(t, ast.Name) and t.id in ("CURVE_NAMES", "ALL_CURVE_NAMES") for t in tg):
+                for x in ast.walk(n.value):
+                    if isinstance(x, ast.Constant) and isinstance(x.value, str):
+                        names.add(x.value)
+    fi = ctx.index.func("utils.ecc:getCurveByName")
+    keys = set()
+    for n in own_nodes(fi.node):
+        if isinstance(n, ast.Dict):
+            keys |= {k.value for k in n.keys if isinstance(k, ast.Constant) and isinstance(k.value, str)}
+        if isinstance(n, ast.Assign) and len(n.targets) == 1 and isinstance(n.targets[0], ast.Subscript) \
+                and isinstance(n.targets[0].slice, ast.Constant) and isinstance(n.targets[0].slice.value, str):
+            keys.add(n.targets[0].slice.value)
+    if len(names) < 10 or len(keys) < 8:
+        raise AnalysisError("%s: curve tables not found (%d names, %d map keys)" % (R, len(names), len(keys)))
+    # names the key exchange never sends to getCurveByName: Montgomery curves and hybrid ML-KEM groups
+    weier = sorted(nm for nm in names if nm not in ("x25519", "x448") and "mlkem" not in nm)
+    for nm in weier:
+        ctx.check(R, nm in keys, fi.qname, "curve %s resolvable" % nm,
+                  "the settings admit curve %r but getCurveByName has no entry for it (its keys: %s): a handshake "
+                  "that selects it dies with ValueError" % (nm, ", ".join(sorted(keys - names)) or "all others match"),
+                  fi.loc(), what="getCurveByName knows %s" % nm)
+
+
 def rule_point_format(ctx):
     """POINT-FORMAT: the EC point format an endpoint uses (or accepts) when both hellos carry
     ec_point_formats comes from BOTH lists: every value a function derives from the two extensions'
@@ -991,6 +1025,7 @@ def rule_point_format(ctx):
 
 RULES = [
     ("C19.POINT-FORMAT", "quick", rule_point_format),
+    ("C19.CURVE-TABLES", "quick", rule_curve_tables),
     ("C19.GROUP-TABLES", "quick", rule_group_tables),
     ("C19.RANGES", "quick", rule_ranges),
     ("C19.SELECT", "quick", rule_select),
